@@ -64,6 +64,15 @@ func (e *Enc) monKeys(m *Monitor) [][2]string {
 
 // resolveMapItem: the has/val/card memory of a map-typed field pkg.Type.field.
 func (e *Enc) resolveMapItem(m string) [][2]string {
+	if strings.HasPrefix(m, "map[") {
+		// every map of this type
+		mt := e.typeByName(m).(*types.Map)
+		out := [][2]string{{mapHasKey(mt), "(Array Int (Array Int Bool))"}, {"map.card", "(Array Int Int)"}}
+		for j, so := range flatten(mt.Elem()) {
+			out = append(out, [2]string{mapValKey(mt, j), "(Array Int (Array Int " + so + "))"})
+		}
+		return out
+	}
 	parts := strings.Split(m, ".")
 	for _, p := range e.W.Prog.AllPackages() {
 		if len(parts) != 3 || p.Pkg.Name() != parts[0] {
